@@ -39,8 +39,22 @@ def r_layering(ctx, cfg):
     """who may rewrite a contract's registry record or run a migrate entry point"""
     F = cfg.facts
     R = "C12.R4"
+    def keeps_who_owns_the_contract(caller):
+        # another writer of the registry is fine when what it saves is the record it loaded under the same address with the
+        # fields this property is about - admin, code_id (and creator, created) - left as they were
+        P0 = cfg.prov
+        ok0 = False
+        for h, b, t in q.lexical_calls(F, caller, W + "save_contract"):
+            a = P0.call_args(h, t, b)
+            ch = q.record_update(a[3], lambda o: peel(o)[0] == "ok" and peel(peel(o)[1])[0] == "call" and peel(peel(o)[1])[1] == "wasm::Wasm::contract_data" and
+                                 same_origin(peel(peel(o)[1])[2][2], a[2]))
+            if ch is None or {k for k in ch if not (isinstance(k, tuple) and k[0] == "&mut")} & {"admin", "code_id", "creator", "created"} or \
+                    any(isinstance(k, tuple) and k[0] == "&mut" and (len(k) < 2 or k[1] in ("admin", "code_id", "creator", "created")) for k in ch):
+                return False
+            ok0 = True
+        return ok0
     q.who_may_call(ctx, R, F, W + "save_contract", {W + "register_contract", W + "update_admin", W + "execute_wasm"},
-                   "the registry is written on instantiation, admin change and migration only")
+                   "the registry is written on instantiation, admin change and migration only", accept=keeps_who_owns_the_contract)
     q.who_may_call(ctx, R, F, W + "call_migrate", {W + "execute_wasm"}, "migrate entry points run from the Migrate arm only")
     def acts_for_its_own_caller(caller):
         # another way in is fine when it cannot forge the identity update_admin compares with the stored admin: the `sender` it
